@@ -318,3 +318,33 @@ package actor
 //@ func (*localQueue).length(q)
 //@   requires lq_wf(q)
 //@   ensures result == q.size
+
+// ---------------------------------------------------------------------------
+//@ property C32
+
+// allocateGrains: with q = n/total and r = n%total the leader takes grains[0:r]
+// plus the first chunk; the chunks are consecutive views of a private copy of
+// grains[r:], so every grain is assigned exactly once (the caller skips chunk 0
+// for the peers because the leader already took it).
+//@ func allocateGrains(totalPeers, grains)
+//@   requires totalPeers > 0
+//@   ensures leader-takes-remainder-first: forall i int :: 0 <= i && i < len(grains) % totalPeers ==> result0[i] == grains[i]
+//@   ensures leader-size: len(result0) == len(grains) % totalPeers + ite(len(result1) > 0, len(result1[0]), 0)
+//@   ensures leader-takes-first-chunk: len(result1) > 0 ==> forall j int :: 0 <= j && j < len(result1[0]) ==> result0[len(grains) % totalPeers + j] == grains[len(grains) % totalPeers + j]
+//@   ensures chunks-tile-the-rest: (len(result1) > 0 ==> offset(result1[0]) == len(grains) % totalPeers && offset(result1[len(result1)-1]) + len(result1[len(result1)-1]) == len(grains)) && forall k int :: 0 <= k && k + 1 < len(result1) ==> offset(result1[k+1]) == offset(result1[k]) + len(result1[k])
+//@   ensures rest-is-chunked: len(grains) % totalPeers < len(grains) ==> len(result1) > 0
+//@   ensures chunks-hold-the-grains: forall k int, j int :: 0 <= k && k < len(result1) && 0 <= j && j < len(result1[k]) ==> result1[k][j] == grains[offset(result1[k]) + j]
+//@   ensures chunk-sizes: forall k int :: 0 <= k && k < len(result1) ==> len(result1[k]) > 0 && len(result1[k]) <= len(grains) / totalPeers
+//@   ensures input-untouched: old_objects_unchanged(grains)
+
+// survivingPeersExcept keeps exactly the peers that are not the target (same host and remoting port), in order.
+//@ spec func same_peer(a *cluster.Peer, b *cluster.Peer) bool = a.Host == b.Host && a.RemotingPort == b.RemotingPort
+//@ func survivingPeersExcept(peers, target)
+//@   requires target != nil && forall i int :: 0 <= i && i < len(peers) ==> peers[i] != nil
+//@   loop 1 invariant survivors-fresh: fresh(survivors) && len(survivors) <= rangeindex + 1 && cap(survivors) == len(peers) && offset(survivors) == 0
+//@   loop 1 invariant input-untouched: old_objects_unchanged(peers)
+//@   loop 1 invariant only-others: forall j int :: 0 <= j && j < len(survivors) ==> !same_peer(survivors[j], target) && exists(i, 0, rangeindex+1, survivors[j] == peers[i])
+//@   loop 1 invariant all-others: forall i int :: 0 <= i && i <= rangeindex && !same_peer(peers[i], target) ==> exists(j, 0, len(survivors), survivors[j] == peers[i])
+//@   ensures never-the-target: forall j int :: 0 <= j && j < len(result) ==> !same_peer(result[j], target)
+//@   ensures all-others: forall i int :: 0 <= i && i < len(peers) && !same_peer(peers[i], target) ==> exists(j, 0, len(result), result[j] == peers[i])
+//@   ensures input-untouched: old_objects_unchanged(peers)
